@@ -17,33 +17,71 @@ Record vtype := mkVT {
   vt_getters : gtable;
   vt_specs : stable;
   vt_known01 : list finding;
-  vt_known02 : list finding }.
+  vt_known02 : list finding;
+  (* every exported method of the Go type as Name/arity, sorted (census kind "api"): the zero-argument ones are
+     IsValid and exactly the names of vt_getters (checked inside Coq: Proofs/Views4.api_consistent); the others are
+     setters / encoders (C03), FastLog (C20) and the accessors with an argument (LLDP.GetPDU: kind "ga";
+     LLDP.Type / Capability: pure functions of their argument, not modelled) *)
+  vt_api : list string }.
 
 Definition vtypes : list vtype :=
-  [ mkVT "ARP" ARP_IsValid ARP_getters ARP_specs [] [];
-    mkVT "DHCP4" DHCP4_IsValid DHCP4_getters DHCP4_specs [] [];
-    mkVT "DNS" DNS_IsValid DNS_getters DNS_specs [] [];
-    mkVT "Ether" Ether_IsValid Ether_getters Ether_specs Ether_findings Ether_findings;
-    mkVT "EthernetPause" Pause_IsValid Pause_getters Pause_specs [] [];
-    mkVT "HopByHopExtensionHeader" HBH_IsValid HBH_getters HBH_specs [] [];
-    mkVT "ICMP" ICMP_IsValid ICMP_getters ICMP_specs [] [];
-    mkVT "ICMP4Redirect" R4_IsValid R4_getters R4_specs [] [];
-    mkVT "ICMP6NeighborAdvertisement" NA_IsValid NA_getters NA_specs [] [];
-    mkVT "ICMP6NeighborSolicitation" NS_IsValid NS_getters NS_specs [] [];
-    mkVT "ICMP6Redirect" Redirect6_IsValid Redirect6_getters Redirect6_specs [] [];
-    mkVT "ICMP6RouterAdvertisement" RA_IsValid RA_getters RA_specs [] [];
-    mkVT "ICMP6RouterSolicitation" RS_IsValid RS_getters RS_specs [] [];
-    mkVT "ICMPEcho" ICMPEcho_IsValid ICMPEcho_getters ICMPEcho_specs [] [];
-    mkVT "IEEE1905" IEEE1905_IsValid IEEE1905_getters IEEE1905_specs [] [];
-    mkVT "IP4" IP4_IsValid IP4_getters IP4_specs [] [];
-    mkVT "IP6" IP6_IsValid IP6_getters IP6_specs [] [];
-    mkVT "LLC" LLC_IsValid LLC_getters LLC_specs [] [];
-    mkVT "LLDP" LLDP_IsValid LLDP_getters LLDP_specs [] [];
-    mkVT "RRCP" RRCP_IsValid RRCP_getters RRCP_specs [] [];
-    mkVT "SNAP" SNAP_IsValid SNAP_getters SNAP_specs [] [];
-    mkVT "TCP" TCP_IsValid TCP_getters TCP_specs [] [];
-    mkVT "UDP" UDP_IsValid UDP_getters UDP_specs [] [];
-    mkVT "Unknown880a" U880a_IsValid U880a_getters U880a_specs [] [] ].
+  [ mkVT "ARP" ARP_IsValid ARP_getters ARP_specs [] []
+      ["DstIP/0"; "DstMAC/0"; "FastLog/1"; "HLen/0"; "HType/0"; "IsValid/0"; "Operation/0"; "PLen/0"; "Proto/0"; "SrcIP/0"; "SrcMAC/0"; "String/0"];
+    mkVT "DHCP4" DHCP4_IsValid DHCP4_getters DHCP4_specs [] []
+      ["AppendOptions/2"; "Broadcast/0"; "CHAddr/0"; "CIAddr/0"; "Cookie/0"; "FastLog/1"; "File/0"; "Flags/0"; "GIAddr/0"; "HLen/0"; "HType/0"; "Hops/0"; "IsValid/0"; "OpCode/0"; "Options/0"; "ParseOptions/0"; "SIAddr/0"; "SName/0"; "Secs/0"; "SetBroadcast/1"; "SetCHAddr/1"; "SetCIAddr/1"; "SetCookie/1"; "SetFile/1"; "SetFlags/1"; "SetGIAddr/1"; "SetHLen/1"; "SetHType/1"; "SetHops/1"; "SetOpCode/1"; "SetSIAddr/1"; "SetSName/1"; "SetSecs/1"; "SetXId/1"; "SetYIAddr/1"; "String/0"; "XId/0"; "YIAddr/0"];
+    mkVT "DNS" DNS_IsValid DNS_getters DNS_specs [] []
+      ["AA/0"; "ANCount/0"; "ARCount/0"; "FastLog/1"; "IsValid/0"; "NSCount/0"; "OpCode/0"; "QDCount/0"; "QR/0"; "RA/0"; "RD/0"; "ResponseCode/0"; "String/0"; "TC/0"; "TransactionID/0"; "Z/0"];
+    mkVT "Ether" Ether_IsValid Ether_getters Ether_specs Ether_findings Ether_findings
+      ["AppendPayload/1"; "Dst/0"; "DstIP/0"; "EtherType/0"; "FastLog/1"; "HeaderLen/0"; "IsValid/0"; "Payload/0"; "SetPayload/1"; "Src/0"; "SrcIP/0"; "String/0"];
+    mkVT "EthernetPause" Pause_IsValid Pause_getters Pause_specs [] []
+      ["Duration/0"; "FastLog/1"; "IsValid/0"; "Opcode/0"; "Reserved/0"; "String/0"];
+    mkVT "HopByHopExtensionHeader" HBH_IsValid HBH_getters HBH_specs [] []
+      ["Data/0"; "IsValid/0"; "Len/0"; "NextHeader/0"; "ParseHopByHopExtensions/0"];
+    mkVT "ICMP" ICMP_IsValid ICMP_getters ICMP_specs [] []
+      ["Checksum/0"; "Code/0"; "FastLog/1"; "IsValid/0"; "Payload/0"; "RestOfHeader/0"; "SetChecksum/1"; "String/0"; "Type/0"];
+    mkVT "ICMP4Redirect" R4_IsValid R4_getters R4_specs [] []
+      ["AddrSize/0"; "Addrs/0"; "Checksum/0"; "Code/0"; "FastLog/1"; "IsValid/0"; "Lifetime/0"; "NumAddrs/0"; "String/0"; "Type/0"];
+    mkVT "ICMP6NeighborAdvertisement" NA_IsValid NA_getters NA_specs [] []
+      ["Checksum/0"; "Code/0"; "FastLog/1"; "IsValid/0"; "Override/0"; "Router/0"; "Solicited/0"; "String/0"; "TargetAddress/0"; "TargetLLA/0"; "Type/0"];
+    mkVT "ICMP6NeighborSolicitation" NS_IsValid NS_getters NS_specs [] []
+      ["Checksum/0"; "Code/0"; "FastLog/1"; "IsValid/0"; "SourceLLA/0"; "String/0"; "TargetAddress/0"; "Type/0"];
+    mkVT "ICMP6Redirect" Redirect6_IsValid Redirect6_getters Redirect6_specs [] []
+      ["Checksum/0"; "Code/0"; "DstAddress/0"; "IsValid/0"; "String/0"; "TargetAddress/0"; "TargetLinkLayerAddr/0"; "Type/0"];
+    mkVT "ICMP6RouterAdvertisement" RA_IsValid RA_getters RA_specs [] []
+      ["Checksum/0"; "Code/0"; "CurrentHopLimit/0"; "FastLog/1"; "Flags/0"; "HomeAgent/0"; "IsValid/0"; "Lifetime/0"; "ManagedConfiguration/0"; "Options/0"; "OtherConfiguration/0"; "Preference/0"; "ProxyFlag/0"; "ReachableTime/0"; "RetransmitTimer/0"; "String/0"; "Type/0"];
+    mkVT "ICMP6RouterSolicitation" RS_IsValid RS_getters RS_specs [] []
+      ["Checksum/0"; "Code/0"; "FastLog/1"; "IsValid/0"; "Options/0"; "SourceLLA/0"; "String/0"; "Type/0"];
+    mkVT "ICMPEcho" ICMPEcho_IsValid ICMPEcho_getters ICMPEcho_specs [] []
+      ["Checksum/0"; "Code/0"; "EchoData/0"; "EchoID/0"; "EchoSeq/0"; "FastLog/1"; "IsValid/0"; "String/0"; "Type/0"];
+    mkVT "IEEE1905" IEEE1905_IsValid IEEE1905_getters IEEE1905_specs [] []
+      ["FastLog/1"; "Flags/0"; "FragmentID/0"; "ID/0"; "IsValid/0"; "Reserved/0"; "String/0"; "TLV/0"; "Type/0"; "Version/0"];
+    mkVT "IP4" IP4_IsValid IP4_getters IP4_specs [] []
+      ["AppendPayload/2"; "CalculateChecksum/0"; "Checksum/0"; "Dst/0"; "FastLog/1"; "FlagDontFragment/0"; "FlagMoreFragments/0"; "Flags/0"; "Fragment/0"; "ID/0"; "IHL/0"; "IsValid/0"; "Payload/0"; "Protocol/0"; "SetPayload/2"; "Src/0"; "String/0"; "TOS/0"; "TTL/0"; "TotalLen/0"; "Version/0"];
+    mkVT "IP6" IP6_IsValid IP6_getters IP6_specs [] []
+      ["AppendPayload/2"; "Dst/0"; "FastLog/1"; "FlowLabel/0"; "HeaderLen/0"; "HopLimit/0"; "IsValid/0"; "NextHeader/0"; "Payload/0"; "PayloadLen/0"; "SetPayload/2"; "Src/0"; "String/0"; "TrafficClass/0"; "Version/0"];
+    mkVT "LLC" LLC_IsValid LLC_getters LLC_specs [] []
+      ["Control/0"; "DSAP/0"; "FastLog/1"; "IsValid/0"; "Payload/0"; "SSAP/0"; "String/0"; "Type/0"];
+    mkVT "LLDP" LLDP_IsValid LLDP_getters LLDP_specs [] []
+      ["Capability/1"; "ChassisID/0"; "FastLog/1"; "GetPDU/1"; "IsValid/0"; "PortID/0"; "String/0"; "Type/1"];
+    mkVT "RRCP" RRCP_IsValid RRCP_getters RRCP_specs [] []
+      ["AuthKey/0"; "FastLog/1"; "IsValid/0"; "OpCode/0"; "Protocol/0"; "RegisterAddr/0"; "RegisterData/0"; "Reply/0"; "SixBytes/0"; "String/0"; "Zeros/0"];
+    mkVT "SNAP" SNAP_IsValid SNAP_getters SNAP_specs [] []
+      ["Control/0"; "DSAP/0"; "EtherType/0"; "FastLog/1"; "IsValid/0"; "OrganisationID/0"; "Payload/0"; "SSAP/0"; "String/0"];
+    mkVT "TCP" TCP_IsValid TCP_getters TCP_specs [] []
+      ["ACK/0"; "Ack/0"; "CWR/0"; "Checksum/0"; "DstPort/0"; "ECE/0"; "FIN/0"; "HeaderLen/0"; "IsValid/0"; "NS/0"; "PSH/0"; "Payload/0"; "RST/0"; "SYN/0"; "Seq/0"; "SrcPort/0"; "URG/0"; "Urgent/0"; "Window/0"];
+    mkVT "UDP" UDP_IsValid UDP_getters UDP_specs [] []
+      ["AppendPayload/1"; "Checksum/0"; "DstPort/0"; "FastLog/1"; "HeaderLen/0"; "IsValid/0"; "Len/0"; "Payload/0"; "SetPayload/1"; "SrcPort/0"; "String/0"];
+    mkVT "Unknown880a" U880a_IsValid U880a_getters U880a_specs [] []
+      ["IsValid/0"] ].
+
+(* accessors with one integer argument *)
+Definition arg_getters : list (string * (N -> getter)) := [("LLDP.GetPDU", LLDP_GetPDU)].
+
+(* the exported layout constants of package packet on which the literal offsets of the model rest (kind "consts") *)
+Definition model_consts : string :=
+  "EthHeaderLen=14,EthAddrLen=6,EthMaxSize=1522,HeaderLen=20,UDPHeaderLen=8,IP6HeaderLen=40,ARPLen=28," ++
+  "EthType8021AD=34984,ARPOperationRequest=1,ARPOperationReply=2,ICMP4TypeEchoReply=0,ICMP4TypeEchoRequest=8," ++
+  "ICMP6TypeEchoRequest=128,ICMP6TypeEchoReply=129,DHCP4ServerPort=67,DHCP4ClientPort=68,DHCP4End=255,DHCP4Pad=0".
 
 Fixpoint find_vt (name : string) (l : list vtype) : option vtype :=
   match l with
@@ -109,6 +147,17 @@ Definition dispatch (line : vtype -> string -> slice -> string) (l : string) : s
       | Some t => out3 (join "," (map fst (vt_getters t))) "-" "-"
       | None => BADARGS
       end
+  | ["api"; ty] =>
+      match find_vt ty vtypes with
+      | Some t => out3 (join "," (vt_api t)) "-" "-"
+      | None => BADARGS
+      end
+  | ["ga"; ty; name; arg; sp; hx] =>
+      match lookup (ty ++ "." ++ name) arg_getters, find_vt ty vtypes, N_of_dec arg, bytes_of_tok sp, bytes_of_tok hx with
+      | Some g, Some t, Some a, Some spare, Some b => line (mkVT (vt_name t) (vt_valid t) [(name, g a)] [] [] [] []) name (of_bytes_cap b spare)
+      | _, _, _, _, _ => BADARGS
+      end
+  | "consts" :: _ => out3 model_consts "-" "-"
   | "types" :: _ => out3 (join "," (map vt_name vtypes)) "-" "-"
   | _ => BADARGS
   end.
